@@ -10,6 +10,7 @@ TABLE = {
     "ll": "ls -l", "e": "echo", "a1": "a2 x", "a2": "echo y", "c1": "c2", "c2": "c1 z", "ls": "ls -F", "nb": "nice ", "nb2": "nb nb3 ", "nb3": "n3",
     "v": "X=1 cmd", "r": "cmd >f", "q": "echo 'q w'", "sub": "echo $(date) `d`", "self": "self", "t": "\ttab\t", "nl": "multi", "dd": "d1 d1", "d1": "D",
     "pip": "p1 | p2", "and": "t1 && t2", "sc": "s1; s2", "grp": "{ g1; }", "nn": "n1\nn2",
+    "cy": "echo $(cy)", "cb": "echo `cb2`", "cb2": "e $(cb)",
 }
 PLAIN = ["cmd", "foo", "bar", "x1"]
 
